@@ -29,9 +29,16 @@ Definition module_url (idf : nat -> str) (m : ent) : option str :=
 (* the page part of a relative URL *)
 Definition page_of (u : str) : str := strip_frag u.
 
-(* an entity B can import from module m *)
+(* A module makes an entity accessible under a name: its own entity under the entity's name, or (alias
+   node) an entity of another module under a local name.  The entity, its class, and whether its
+   defining module documents it: *)
+Definition denoted (e : ent) : ent := match alias_target e with Some t => t | None => e end.
+Definition class_of (e : ent) : option str := pub_class (e_kind (denoted e)).
+Definition displayed (disp : list perm) (e : ent) : bool := shown disp (denoted e).
+
+(* an entity B can import from module m (under the name e_name e) *)
 Definition importable (e : ent) : bool :=
-  accessible e && match pub_class (e_kind e) with Some _ => true | None => false end.
+  accessible e && match class_of e with Some _ => true | None => false end.
 
 (* everything B may link to in module m with the URL it must get: (class dict, lower name, url) *)
 Definition expected_links (idf : nat -> str) (b : base) (m : ent) : list (str * str * str) :=
@@ -59,7 +66,7 @@ Definition LIST_CLASSES : list str :=
 (* the public entities of module m that belong in class dict c / in list l, as lower-case names *)
 Definition spec_pub (m : ent) (c : str) : list str :=
   map (fun e => lower (e_name e))
-      (filter (fun e => accessible e && opt_eqb str_eqb (pub_class (e_kind e)) (Some c)) (e_kids m)).
+      (filter (fun e => accessible e && opt_eqb str_eqb (class_of e) (Some c)) (e_kids m)).
 Definition spec_list (m : ent) (l : str) : list str :=
   map (fun e => lower (e_name e))
       (filter (fun e => accessible e && str_eqb (slot_of (e_kind e)) l) (e_kids m)).
@@ -143,6 +150,7 @@ Fixpoint path_ok (idf : nat -> str) (b : base) (pk : option kind) (purl : option
   match e with
   | Ent id k name p kids =>
     let url := own_url pk purl k (idf id) in
+    let generic :=
     match url, x_url x with
     | Some u, JStr xu => str_eqb xu (spec_join b u)
     | Some _, _ => false
@@ -156,5 +164,12 @@ Fixpoint path_ok (idf : nat -> str) (b : base) (pk : option kind) (purl : option
             | Some xc => path_ok idf b (Some k) url c xc
             | None => true
             end && go r
-          end) kids
+          end) kids in
+    match k, kids with
+    | KAlias, t :: _ =>
+      (* a name for an entity of another module: the object must be that entity, as its defining module
+         (whose id the alias node carries) addresses it *)
+      path_ok idf b (Some KModule) (own_url None None KModule (idf id)) t x
+    | _, _ => generic
+    end
   end.
